@@ -117,6 +117,21 @@ func (p *c17) RunCase(ctx *runner.Ctx) runner.CaseResult {
 				op = mon.WithCond(op, c05Cond(r, v), v, rrCanon)
 				op.RetCCF = false
 			}
+		case adapt.OpBatchWrite:
+			// some batches carry a request that cannot be applied (unknown table, malformed key,
+			// ill-typed index key) - also while a failure condition is active
+			switch r.Intn(6) {
+			case 0:
+				op.Batch = append(op.Batch, adapt.BatchEntry{Table: "nosuchtable", Put: val.Item{"h": val.Str("x")}})
+			case 1:
+				if len(op.Batch) > 0 {
+					op.Batch = append(op.Batch, adapt.BatchEntry{Table: op.Batch[0].Table, Put: val.Item{"nokey": val.Str("x")}})
+				}
+			case 2:
+				if len(op.Batch) > 0 {
+					op.Batch = append(op.Batch, adapt.BatchEntry{Table: op.Batch[0].Table, Del: val.Item{"h": val.Num("1")}})
+				}
+			}
 		case adapt.OpQuery, adapt.OpScan:
 			if r.Intn(2) == 0 {
 				op.Limit = 1 + r.Intn(3)
